@@ -273,6 +273,9 @@ pub struct JaxNoise {
     /// head of phenotype.hpoa: 0 "#" comment lines + column-name line, 1 column-name line only,
     /// 2 comment lines only, 3 neither (the file starts with the first row)
     pub hpoa_head: u8,
+    /// end of the four files: 0 one newline after the last line, 1 no newline after the last line,
+    /// 2 an additional blank line at the end of hp.obo and phenotype.hpoa
+    pub eof: u8,
 }
 
 const TAG_POOL: [&str; 8] = [
@@ -430,11 +433,24 @@ pub fn render_jax(f: &Facts, noise: &JaxNoise) -> JaxFiles {
     for (id, term) in dec_rows {
         hpoa.push_str(&format!("DECIPHER:{id}\tSome syndrome\t\t{}{}\n", hp(term), extra));
     }
+    // (the gene files do not admit blank lines: the loader rejects them as malformed rows)
+    let end = |mut t: String, blank_ok: bool| -> String {
+        match noise.eof % 3 {
+            1 => {
+                while t.ends_with('\n') {
+                    t.pop();
+                }
+            }
+            2 if blank_ok => t.push('\n'),
+            _ => {}
+        }
+        t
+    };
     JaxFiles {
-        obo,
-        hpoa,
-        genes_to_phenotype: g2p,
-        phenotype_to_genes: p2g,
+        obo: end(obo, true),
+        hpoa: end(hpoa, true),
+        genes_to_phenotype: end(g2p, false),
+        phenotype_to_genes: end(p2g, false),
     }
 }
 
